@@ -14,6 +14,7 @@ from ..core import check, Violation
 from ..sim import machine as M
 
 ID = "C09"
+IMPORTS = ['rig.machine_control.machine_controller']
 LEVEL = "fault_enumeration"
 TECHNIQUE = ("reference-model monitor over the simulated machine's core "
              "table + offline checker of every recorded flood-fill packet "
